@@ -34,3 +34,26 @@ fn vf_find_file_by_stem() {
     }
     println!("VF-SUMMARY test=find_file_by_stem checked={} nontrivial={} bad={}", checked, checked - 2, bad);
 }
+
+#[test]
+fn vf_is_executable() {
+    // C06 / C05: executable iff the file the path RESOLVES to has an execute bit (symbolic links followed)
+    use std::os::unix::fs::PermissionsExt;
+    let td = crate::core::testing::new_testdir().unwrap();
+    let d = td.path();
+    let mk = |name: &str, mode: u32| { let p = d.join(name); std::fs::write(&p, b"#!/bin/sh\n").unwrap(); let mut perm = std::fs::metadata(&p).unwrap().permissions(); perm.set_mode(mode); std::fs::set_permissions(&p, perm).unwrap(); p };
+    let exec = mk("exec.sh", 0o755);
+    let noexec = mk("noexec.sh", 0o644);
+    let group_only = mk("group.sh", 0o610);
+    std::os::unix::fs::symlink(&exec, d.join("ln-exec")).unwrap();
+    std::os::unix::fs::symlink(&noexec, d.join("ln-noexec")).unwrap();
+    std::os::unix::fs::symlink(d.join("nowhere"), d.join("ln-dangling")).unwrap();
+    std::os::unix::fs::symlink(d.join("ln-noexec"), d.join("ln-ln-noexec")).unwrap();
+    let (mut checked, mut bad) = (0u64, 0u64);
+    for (name, want) in [("exec.sh", true), ("noexec.sh", false), ("group.sh", true), ("ln-exec", true), ("ln-noexec", false), ("ln-dangling", false), ("ln-ln-noexec", false), ("missing", false)] {
+        checked += 1;
+        let got = is_executable(d.join(name));
+        if got != want { bad += 1; println!("VF-FAIL is_executable on `{}` :: returned {}, the file it resolves to {} an execute bit (C06) (C05)", name, got, if want { "has" } else { "does not exist or has not" }); }
+    }
+    println!("VF-SUMMARY test=is_executable checked={} nontrivial={} bad={}", checked, checked, bad);
+}
